@@ -371,14 +371,23 @@ Fixpoint restore (s : snode) {struct s} : res node :=
       end
   end.
 
+(* When the root's own channels are owned by another object (the throw-away instance of an
+   earlier Node.load, which kept the channels but lost its children), pickling the root drags
+   that object along through channel.owner; its __setstate__ runs first and, for a Macro / For
+   with inputs, looks the link targets up among children it no longer has: KeyError. *)
+Definition ghost_fails (c : ctx) (n : node) : bool :=
+  negb (cown c) && is_linked (nkind n) && match nins n with [] => false | _ => true end.
+
 (* one pickle round trip of a root *)
 Definition trip_pickle (cn : ctx * node) : res (ctx * node) :=
   match dump_root (fst cn) (snd cn) with
   | Err e => Err e
-  | Ok s => match restore s with
-            | Ok n' => Ok (mkC None (s_det s) (cown (fst cn)), n')
-            | Err e => Err e
-            end
+  | Ok s =>
+      if ghost_fails (fst cn) (snd cn) then Err KeyErr else
+      match restore s with
+      | Ok n' => Ok (mkC None (s_det s) (cown (fst cn)), n')
+      | Err e => Err e
+      end
   end.
 
 (* ------------------------------------------------------------------ Node.load: self.__setstate__(inst.__getstate__()) *)
@@ -763,7 +772,7 @@ Definition apply_op (o : op) (n : node) : node :=
   | ODiscD p i o => at_path p (fun m => set_nkids m (disc_d (nkids m) i o)) n
   | OConnS p i o => at_path p (fun m => match connect_s (nkids m) (i, o) with Ok K => set_nkids m K | Err _ => m end) n
   | ODiscS p i o => at_path p (fun m => set_nkids m (disc_s (nkids m) i o)) n
-  | OSetIn p l v => at_path p (fun m => set_nins m (setval l v (nins m))) n
+  | OSetIn p l v => at_path p (fun m => if nrunning m then m else set_nins m (setval l v (nins m))) n
   | OSetOut p l v => at_path p (fun m => set_nouts m (setval l v (nouts m))) n
   | OFlags p f r => at_path p (fun m => Node (nlab m) (nkind m) (ncls m) f r (nexe m) (nins m) (nouts m) (nsin m)
                                              (nsout m) (nkids m) (nstart m) (nprov m)) n
